@@ -189,9 +189,46 @@ func (V *Verifier) frameCheck(fn *ssa.Function) []frameFinding {
 							// no contract: the zero-annotation write-effect analysis says which
 							// writes of the callee (and its callees) reach memory it did not
 							// allocate itself; none = nothing visible to the caller changes
-							effs := sortedEffects(V.effects().eff[callee])
-							if len(effs) > 0 {
-								ok, why = false, fmt.Sprintf("callee %s has no contract and may write memory it did not allocate: %s %s", ck, effs[0].root.String(), effs[0].what)
+							var cargs []ssa.Value
+							if cc.IsInvoke() {
+								cargs = append(cargs, cc.Value)
+							}
+							cargs = append(cargs, cc.Args...)
+							for _, ef := range sortedEffects(V.effects().eff[callee]) {
+								// a write through parameter i of the callee is a write through the
+								// caller's argument i: fine if that memory is the caller's own, or if
+								// the caller's assigns clause covers the same thing through the
+								// parameter it passes on
+								covered := false
+								if ef.root.kind == "param" && ef.root.idx < len(cargs) {
+									ar := rootOf(cargs[ef.root.idx])
+									if V.isFreshRoot(ar, map[ssa.Value]bool{}) {
+										covered = true
+									} else if cp, isP := ar.(*ssa.Parameter); isP {
+										var keys []string
+										if strings.HasPrefix(ef.what, "store to ") {
+											keys = []string{strings.TrimPrefix(ef.what, "store to ")}
+										} else if strings.HasPrefix(ef.what, "mutated by ") {
+											if xc := V.CS.ByKey[strings.TrimPrefix(ef.what, "mutated by ")]; xc != nil {
+												keys = stripLoc(xc.Assigns)
+											}
+										}
+										covered = len(keys) > 0
+										for _, k := range keys {
+											if allowed[k] {
+												continue
+											}
+											if loc, has := located[k]; has && locMentions(loc, paramName(cp)) {
+												continue
+											}
+											covered = false
+										}
+									}
+								}
+								if !covered {
+									ok, why = false, fmt.Sprintf("callee %s has no contract and may write memory it did not allocate: %s %s", ck, ef.root.String(), ef.what)
+									break
+								}
 							}
 						} else if ck != "" {
 							ok, why = false, "external callee "+ck+" has no contract"
